@@ -733,6 +733,22 @@ func (f *fgen) drawBlock() ([]txgen.Tx, string) {
 			return txs, "push"
 		}
 	}
+	// the last block of a voting period: votes still count there and the expiry is due one block later — a stranger's
+	// EXPIRE_VOTES (and FINALIZE) arrives in exactly that block, ahead of the votes, half of the time
+	if f.u.N(2, "at-deadline") == 0 {
+		for _, p := range f.byStage(SV) {
+			if p.Rec.VotingDeadline == f.next() {
+				_, usr := f.user("dl-user")
+				ex := txgen.ExpireVotes(usr, governance.ProposalID(p.ID), usr.Addr, f.w.Fee, f.w.Memo())
+				ex.Tags = []string{"focused", "public-router", "expire-at-voting-deadline"}
+				out := []txgen.Tx{ex}
+				if burst, ok := f.voteBurst(false); ok {
+					out = append(out, burst...)
+				}
+				return out, "expire-at-deadline"
+			}
+		}
+	}
 	switch {
 	case r < 12:
 		if txs, ok := f.refundBlock(); ok {
